@@ -42,7 +42,7 @@ type c03Obs struct {
 	quorum              int
 }
 
-func c03Run(t *testing.T, r *vfRand, c *lkCase, w *wWorld, op int, withDeadline bool) *c03Obs {
+func c03Run(t *testing.T, r *vfRand, c *lkCase, w *wWorld, op int, withDeadline, afterClose bool) *c03Obs {
 	o := &c03Obs{op: op}
 	opts := []Option{NamespacedValidator("v", wValidator{})}
 	if c03Ops[op] == "ProvideOptimistic" {
@@ -185,6 +185,16 @@ func c03Run(t *testing.T, r *vfRand, c *lkCase, w *wWorld, op int, withDeadline 
 		}
 		return i
 	}
+	if c.cancelAt == -2 {
+		cancelled = true
+		o.cancelled = true
+		tCancel = time.Now()
+		cancel()
+	}
+	if afterClose {
+		_ = node.d.Close() // the DHT only: the host and its peerstore stay up
+		synctest.Wait()
+	}
 	ok, steps := simDrive(run, pick, node.gate, 50000)
 	o.returned, o.steps = ok, steps
 	o.addProvBeforeReturn = addReleased
@@ -262,9 +272,15 @@ func TestVerifC03(t *testing.T) {
 			c, w = c03ManyEarlyStores(r)
 			op, scenario = 8, "many-early-stores"
 		}
+		afterClose := false
 		if scenario != "" {
-		} else if r.Chance(30) {
+		} else if x := r.Intn(100); x < 28 {
 			c.cancelAt = r.Intn(3 * len(c.peers))
+		} else if x < 36 {
+			c.cancelAt = -2 // the caller's context is already cancelled when the operation starts
+		} else if x < 42 {
+			c.cancelAt = -1
+			afterClose = true // the operation is started on a node that has been closed
 		} else {
 			c.cancelAt = -1
 		}
@@ -278,9 +294,9 @@ func TestVerifC03(t *testing.T) {
 			c.strategy = 5
 		}
 		withDeadline := scenario == "" && r.Chance(30)
-		vfBeat(map[string]any{"case": i, "seed": seed, "op": c03Ops[op], "K": c.k, "npeers": len(c.peers), "scenario": scenario, "strategy": c.strategy, "cancelAt": c.cancelAt})
+		vfBeat(map[string]any{"case": i, "seed": seed, "op": c03Ops[op], "K": c.k, "npeers": len(c.peers), "scenario": scenario, "strategy": c.strategy, "cancelAt": c.cancelAt, "afterClose": afterClose})
 		var o *c03Obs
-		leak := simBubble(t, func(t *testing.T) { o = c03Run(t, r.Fork(), c, w, op, withDeadline) })
+		leak := simBubble(t, func(t *testing.T) { o = c03Run(t, r.Fork(), c, w, op, withDeadline, afterClose) })
 		if o == nil {
 			o = &c03Obs{op: op}
 		}
@@ -295,10 +311,10 @@ func TestVerifC03(t *testing.T) {
 			}
 		}
 		desc := map[string]any{"case": i, "seed": seed, "op": c03Ops[op], "K": c.k, "alpha": c.alpha, "beta": c.beta, "npeers": len(c.peers),
-			"failing": nfail, "slow": nslow, "cancelAt": c.cancelAt, "deadline": withDeadline, "quorum": o.quorum, "strategy": c.strategy, "returned": o.returned,
+			"failing": nfail, "slow": nslow, "cancelAt": c.cancelAt, "afterClose": afterClose, "deadline": withDeadline, "quorum": o.quorum, "strategy": c.strategy, "returned": o.returned,
 			"panic": o.panicked, "leak": o.leak, "err": o.err, "steps": o.steps, "virtual_s": o.virtual.Seconds(),
 			"after_cancel_s": o.afterCancel.Seconds(), "scenario": scenario, "add_provider_total": o.addProvTotal, "add_provider_before_return": o.addProvBeforeReturn, "optimistic": o.optimistic}
-		sig := fmt.Sprintf("%s|c%v d%v|f%d s%d|opt%v|n%d", c03Ops[op], o.cancelled, withDeadline, minInt(nfail, 3), minInt(nslow, 2), o.optimistic, o.addProvTotal/4)
+		sig := fmt.Sprintf("%s|c%v pre%v closed%v d%v|f%d s%d|opt%v|n%d", c03Ops[op], o.cancelled, c.cancelAt == -2, afterClose, withDeadline, minInt(nfail, 3), minInt(nslow, 2), o.optimistic, o.addProvTotal/4)
 		coq := fmt.Sprintf("{| c_op := %d; c_K := %d; c_optimistic := %s; c_cancelled := %s; c_deadline := %s; c_rpc_total := %d; c_rpc_before_return := %d;\n   i_returned := %s; i_panic := %s; i_leak := %s; i_closed := %s; i_prompt := %s |}",
 			op, c.k, vfBool(o.optimistic), vfBool(o.cancelled), vfBool(withDeadline), o.addProvTotal, o.addProvBeforeReturn,
 			vfBool(o.returned), vfBool(o.panicked != ""), vfBool(o.leak != ""), vfBool(o.chClosed), vfBool(o.afterCancel == 0))
